@@ -151,6 +151,7 @@ class C13(Prop):
         for n, w in enumerate(wspecs):
             faults[n + 1] = set(w[2])
         target = Target(sch, log, faults)
+        target.mixed_faults = False
         sink = Sink(sch, mfaults)
         st = {'gets': 0, 'spawned': [], 'joined': [], 'result': None, 'live': []}
 
@@ -194,7 +195,7 @@ class C13(Prop):
                 st['result'] = ['raised', 'interrupt']
             except MakeTestsError:
                 st['result'] = ['raised', 'makeTests']
-            except S.Injected:
+            except S.INJECTED:
                 st['result'] = ['raised', 'injected']
             st['live'] = [w for w in st['spawned'] if (w + 1) not in sch.done]
 
@@ -216,7 +217,7 @@ class C13(Prop):
         died = []
         for n in range(len(workers)):
             e = sch.errors.get(n + 1)
-            if e is not None and not isinstance(e, S.Injected):
+            if e is not None and not isinstance(e, S.INJECTED):
                 return ['raised', type(e).__name__]
             died.append(e is not None)
         if 0 in sch.errors:
